@@ -545,6 +545,44 @@ def rule_fitted(ctx):
     return res.finish(2)
 
 
+def rule_normarms(ctx):
+    """The three row norms are norms: sums / maxima of *absolute* values.  An arm that reduces the signed entries (a plain
+    maximum) agrees with the norm for rows whose dominant entry is positive - and divides by a negative number, or by
+    zero, otherwise."""
+    res = RuleResult("R-C16-normarms", "every arm of NormScaler's norm dispatcher computes a norm: norm_l1 / norm_l2 / norm_max, or a reduction over absolute values")
+    F = ctx.facts()
+    fns = [f for f in F.all_fns() if f["d"]["krate"] == "linfa_preprocessing" and f["d"]["name"] == "transform" and fn_file(f).endswith("norm_scaling.rs") and not f.get("exp")]
+    n = 0
+    for fn in fns:
+        c = fn["crate"]
+        r = Render(c)
+        key = fn_key(fn)
+        for y in walk(fn["body"]):
+            if y.get("k") != "Match" or y.get("src", "Normal") != "Normal":
+                continue
+            if not any(z.get("k") == "Field" and z["name"] == "norm" for z in walk(y["scrut"])):
+                continue
+            for a in y["arms"]:
+                p_ = a["pat"]
+                while p_.get("k") == "Ref":
+                    p_ = p_["pat"]
+                vn = (c.dfn(p_.get("def")) or {}).get("name")
+                if not vn:
+                    continue
+                n += 1
+                res.instance("%s : arm %s" % (key, vn))
+                calls = [z["name"] for z in walk(a["body"]) if z.get("k") == "MethodCall"]
+                if any(nm in ("norm_l1", "norm_l2", "norm_max", "norm") for nm in calls) or "abs" in calls:
+                    res.ok()
+                elif any(nm in ("fold", "max", "min", "reduce", "sum", "max_by", "min_by") for nm in calls):
+                    res.violate("%s : norm-without-absolute-value:%s" % (key, vn), "the `%s` arm reduces the signed entries (`%s`): for a row whose dominant entry is negative this is not the norm - the row is divided by a negative number or by zero" % (vn, r.e(a["body"])[:50]), fn_loc(fn, a["body"].get("ln")))
+                else:
+                    res.undecided("%s : arm-form:%s" % (key, vn), "arm not recognised (fail closed)", fn_loc(fn, a["body"].get("ln")))
+    if n < 3:
+        res.missing_anchor("the three arms of NormScaler's norm dispatcher (found %d)" % n)
+    return res.finish(3)
+
+
 def rule_stale(ctx):
     """no field of a fitted model is computed from a local that is stored in another field and mutated in between (rules/stale.py)"""
     from . import stale
@@ -570,7 +608,7 @@ def rules(tier):
     from . import carry, c04
     from . import precision
     from . import blockmean
-    return [blockmean.make_rule("R-C16-blockmean", lambda f: f["d"]["krate"] == "linfa_preprocessing" and any(x in fn_file(f) for x in ("linear_scaling", "norm_scaling", "whitening")), "the scalers and whiteners of linfa-preprocessing"), rule_fitted, rule_meta, rule_empty, rule_div, rule_affine, rule_extrema, rule_memorder, rule_stale,
+    return [blockmean.make_rule("R-C16-blockmean", lambda f: f["d"]["krate"] == "linfa_preprocessing" and any(x in fn_file(f) for x in ("linear_scaling", "norm_scaling", "whitening")), "the scalers and whiteners of linfa-preprocessing"), rule_fitted, rule_normarms, rule_meta, rule_empty, rule_div, rule_affine, rule_extrema, rule_memorder, rule_stale,
             carry.make_clone_rule("R-C16-clone", {"linfa_preprocessing"}, 8), carry.make_setter_rule("R-C16-override", {"linfa_preprocessing"}, 4),
             precision.make_rule("R-C16-precision", lambda f: f["d"]["krate"] == "linfa_preprocessing" and any(x in fn_file(f) for x in ("linear_scaling", "norm_scaling", "whitening")), 25, "linfa-preprocessing scalers and whiteners"),
             carry.make_accessor_rule("R-C16-accessor", {"linfa_preprocessing"}, 6), carry.make_ctor_rule("R-C16-ctor", {"linfa_preprocessing"}, 2)]
